@@ -96,6 +96,10 @@ def gen_pars(tier, rng):
     return res
 
 
+COMMENT_PARS = ["a<!--c-->b", "<!--c-->a", "a<!--c-->", "a <!--c--> b", atom("span", "x") + "<!--c-->" + atom("s"), "a<?pi x?>b",
+                atom("s") + "<!--c-->", "<!--c-->"]
+
+
 def wrap(pars):
     return ('<office:document-content %s><office:body><office:text>%s</office:text></office:body></office:document-content>'
             % (NSDECL, "".join(pars))).encode()
@@ -109,6 +113,11 @@ def tree_cases(tier, rng, pars, replay_xml=None):
     # groups (levels / last-child positions differ)
     for i in range(0, len(pars), 25):
         cases.append(("group", wrap(pars[i:i + 25])))
+    # comments and processing instructions: outside the tree model, decided by the direct oracle
+    for c in COMMENT_PARS:
+        cases.append(("comment", wrap([par(c)])))
+    cases.append(("comment", wrap([par("a")]).replace(b"<office:text>", b"<office:text><!--top-->")))
+    cases.append(("comment", wrap([par("a")]).replace(b"</office:text>", b"<!--end--></office:text>")))
     S = pkglib.samples(common.REPO)
     import zipfile
     for s in S:
@@ -133,7 +142,18 @@ def run_trees(cases, tab, pretty_indent):
         try:
             before = ta.node(root)
         except ValueError:
-            skipped += 1; continue        # comments / PIs: outside the model (see notes: F40)
+            # comments / PIs: outside the tree model; the direct oracle of the property decides
+            r2 = copy.deepcopy(root); txt0 = pkglib.paragraphs_text(root); loose0 = pkglib.loose_digest(root)
+            try:
+                r3 = pkglib.limited(pretty_indent, r2)
+                ch_t, ch_l, err = pkglib.paragraphs_text(r3) != txt0, pkglib.loose_digest(r3) != loose0, None
+            except pkglib.Timeout:
+                skipped += 1; continue
+            except Exception as e:
+                ch_t, ch_l, err = False, False, repr(e)
+            out.append(dict(label=label, xml=data.decode("utf8", "replace") if len(data) < 20000 else None, coq=None, oracle_only=True,
+                            oracle_text_changed=ch_t, oracle_loose_changed=ch_l, err=err, first_diff=None))
+            continue
         r2 = copy.deepcopy(root)
         txt0 = pkglib.paragraphs_text(root); loose0 = pkglib.loose_digest(root)
         err = None
@@ -222,8 +242,10 @@ def run(tier, seed, replay=None):
     def post_hook(done, recmap, seed_, known, proofs):
         cases = tree_cases(tier, rng0, pars, rj["xml"] if (rj and "xml" in rj) else None) if not (rj and "ops" in rj) else []
         res, skipped = run_trees(cases, tab, pretty_indent)
-        bad, errs = common.run_shards("Require Import C11Chk. From Coq Require Import List ZArith. Import ListNotations.\nRequire Import WS PrettyTree.\nOpen Scope Z_scope.\n",
-                                      [r["coq"] for r in res], "chk11t", "c11t", shard=120) if res else ({}, [])
+        coq_idx = [i for i, r in enumerate(res) if r["coq"]]
+        bad0, errs = common.run_shards("Require Import C11Chk. From Coq Require Import List ZArith. Import ListNotations.\nRequire Import WS PrettyTree.\nOpen Scope Z_scope.\n",
+                                       [res[i]["coq"] for i in coq_idx], "chk11t", "c11t", shard=120) if coq_idx else ({}, [])
+        bad = {coq_idx[k]: v for k, v in bad0.items()}
         viol, ks, seen = [], [], set()
         coq_broken = bool(errs) or not proofs["ok"]
         for i, r in enumerate(res):
@@ -232,7 +254,7 @@ def run(tier, seed, replay=None):
                 code, layer = 3, "pretty-raises: pretty_indent raised %s" % r["err"]
             elif code in TLAYER:
                 layer = TLAYER[code]
-            elif coq_broken and (r["oracle_text_changed"] or r["oracle_loose_changed"]):
+            elif (coq_broken or r.get("oracle_only")) and (r["oracle_text_changed"] or r["oracle_loose_changed"]):
                 # Coq could not be asked: the direct Python oracle of the property decides
                 code, layer = 1, "pretty-text (direct oracle; the Coq side did not build): readable text / projection changes under pretty_indent"
             else:
@@ -247,7 +269,7 @@ def run(tier, seed, replay=None):
             else:
                 viol.append((rp, False))
         fid = sum(1 for c in bad.values() if c == 9)
-        distinct = len({hashlib.md5(r["coq"].encode()).hexdigest() for r in res})
+        distinct = len({hashlib.md5((r["coq"] or r["xml"] or "").encode()).hexdigest() for r in res})
         cov = dict(evaluations=len(res), distinct_nontrivial=distinct, tree_cases=len(res), tree_cases_skipped=skipped, tree_fidelity_divergences=fid,
                    tree_oracle_text_changed=sum(1 for r in res if r["oracle_text_changed"]), text_content_names=len(tc),
                    generated_paragraphs=len(pars), samples=[dict(tree=r["xml"][:600]) for r in res[:2] if r["xml"]],
